@@ -203,15 +203,28 @@ def _main(args, tier, build_dir, t_start):
         return 2
     prof = REGISTRY[args.prop]()
     jobs = args.jobs or min(16, os.cpu_count() or 4)
-    per = max(1, jobs // 2)
-    pools = {b: make_pool(build_dir, b, per) for b in BACKENDS}
+    per = 1 if args.replay else max(1, jobs // 2)
+    pools = LazyPools(build_dir, per)
     try:
         if args.replay:
             return do_replay(args, prof, pools)
         return do_batch(args, tier, prof, pools, t_start, jobs)
     finally:
-        for p in pools.values():
-            p.shutdown(wait=False, cancel_futures=True)
+        pools.shutdown()
+
+
+class LazyPools(dict):
+    def __init__(self, build_dir, per):
+        super().__init__()
+        self.build_dir, self.per = build_dir, per
+
+    def __missing__(self, b):
+        self[b] = make_pool(self.build_dir, b, self.per)
+        return self[b]
+
+    def shutdown(self):
+        for p in self.values():
+            p.shutdown(wait=True, cancel_futures=True)
 
 
 def do_replay(args, prof, pools):
